@@ -67,6 +67,8 @@ type File struct {
 	ID      int
 	real    *os.File
 	special *[]byte
+	dirList []fs.DirEntry // directory handle: the listing taken at the first read
+	dirRead bool
 }
 
 // fault asks the explorer whether this call fails (seam "fault"); FaultOps restricts which kinds of
@@ -315,6 +317,106 @@ func (fl *File) Stat() (fs.FileInfo, error) {
 		return fl.real.Stat()
 	}
 	return &entry{name: filepath.Base(fl.Path), ino: fl.Ino}, nil
+}
+
+// ReadDir / Readdir / Readdirnames mirror the directory-reading methods of *os.File (n <= 0: everything
+// that is left, n > 0: at most n entries and io.EOF once nothing is left). The listing is taken (one
+// filesystem call: scheduling point, may fail) when the handle is first read.
+func (fl *File) ReadDir(n int) ([]fs.DirEntry, error) {
+	if fl.real != nil {
+		return fl.real.ReadDir(n)
+	}
+	if fl.Closed {
+		return nil, pathErr("readdir", fl.Path, os.ErrClosed)
+	}
+	if !fl.dirRead {
+		l, err := fl.fs.ReadDir(fl.Path)
+		if err != nil {
+			return nil, err
+		}
+		fl.dirList, fl.dirRead = l, true
+	}
+	rest := fl.dirList[min(fl.pos, len(fl.dirList)):]
+	if n > 0 {
+		if len(rest) == 0 {
+			return nil, io.EOF
+		}
+		rest = rest[:min(n, len(rest))]
+	}
+	fl.pos += len(rest)
+	return append([]fs.DirEntry(nil), rest...), nil
+}
+
+func (fl *File) Readdir(n int) ([]fs.FileInfo, error) {
+	if fl.real != nil {
+		return fl.real.Readdir(n)
+	}
+	es, err := fl.ReadDir(n)
+	out := make([]fs.FileInfo, 0, len(es))
+	for _, e := range es {
+		out = append(out, e.(*entry))
+	}
+	return out, err
+}
+
+func (fl *File) Readdirnames(n int) ([]string, error) {
+	if fl.real != nil {
+		return fl.real.Readdirnames(n)
+	}
+	es, err := fl.ReadDir(n)
+	out := make([]string, 0, len(es))
+	for _, e := range es {
+		out = append(out, e.Name())
+	}
+	return out, err
+}
+
+// Chmod / Chown are accepted and ignored (the model has no permissions).
+func (fl *File) Chmod(mode fs.FileMode) error {
+	if fl.real != nil {
+		return fl.real.Chmod(mode)
+	}
+	return nil
+}
+
+// Truncate mirrors (*os.File).Truncate.
+func (fl *File) Truncate(size int64) error {
+	if fl.real != nil {
+		return fl.real.Truncate(size)
+	}
+	Point(KFS, nil)
+	if fl.Closed {
+		return pathErr("truncate", fl.Path, os.ErrClosed)
+	}
+	for int64(len(fl.Ino.Data)) < size {
+		fl.Ino.Data = append(fl.Ino.Data, 0)
+	}
+	fl.Ino.Data = fl.Ino.Data[:size]
+	fl.Ino.MTime = fl.fs.x.Now
+	fl.fs.log(FSCall{Op: "truncate", Path: fl.Path, FD: fl.ID, Bytes: int(size)})
+	return nil
+}
+
+// Seek is accepted (append-mode writes ignore the offset, as on a real O_APPEND descriptor).
+func (fl *File) Seek(offset int64, whence int) (int64, error) {
+	if fl.real != nil {
+		return fl.real.Seek(offset, whence)
+	}
+	return int64(len(fl.Ino.Data)), nil
+}
+
+// Chtimes sets the modification time of a file.
+func (f *FS) Chtimes(name string, mtime time.Time) error {
+	Point(KFS, nil)
+	p := clean(name)
+	n, ok := f.Nodes[p]
+	if !ok {
+		f.log(FSCall{Op: "chtimes", Path: p, Err: "ENOENT"})
+		return pathErr("chtimes", name, syscall.ENOENT)
+	}
+	n.MTime = mtime
+	f.log(FSCall{Op: "chtimes", Path: p})
+	return nil
 }
 
 // Fd is a dummy descriptor number.
